@@ -27,6 +27,7 @@ def run(tier, seed):
     n += common.behaviours_leg(chk, rel, 90 if tier == "quick" else 1500)
     chk.leg("trace validation (Layer A judge)", events=n,
             what="bytes of derived pk (from generated and from round-tripped sk) equal the generated pk's; verdicts of generated / round-tripped / derived pk agree on valid, bit-flipped, wrong-mode and wrong-message signatures")
+    common.nohooks_leg(chk, "honest", nseeds=2, nmsgs=2)
     common.mc_leg(chk, "MC_API", tier=tier)
     chk.cov["exhaustive"] = False
     return chk.finish()
